@@ -1,19 +1,24 @@
 """Cyclic coverage of index loops (shared by C06 R6.2 and C14 R14.4).
 
-A loop `for i in range(...)` *walks a cycle* when the successor `i + 1` flows
-into a subscript index (directly or through a local).  Such a loop must
+A loop `for i in range(...)` (statement or comprehension) *walks a cycle* when
+the successor of `i` flows into a subscript index (directly or through a
+local).  The successor is `i + 1`, or a call of a *wrap helper* -- a function
+f(i, N) of the repository whose every return is 0 under `i == N - 1` and
+`i + 1` otherwise, or `(i + 1) % N`.  Such a loop must
   * range over the full  range(N)  (one argument, or 0..N), and
   * pair index i with a wrap-around successor: `(i + 1) % N` with the same N,
-    or the idiom  `if i == N - 1: j = 0  else: j = i + 1`  with the same N,
+    the idiom  `if i == N - 1: j = 0  else: j = i + 1`  with the same N, or
+    the wrap helper called with the same N,
 so that all N edges / fan triangles / side faces are visited, including the
-closing one.
+closing one.  N is compared after single-definition locals are replaced by
+their definitions (`count = len(self.points)`).
 """
 from __future__ import annotations
 
 import ast
 from typing import Dict, List, Optional, Tuple
 
-from .astutil import parents, txt
+from .astutil import expand_locals, parents, single_defs, txt
 from .model import FunctionInfo, walk_local
 
 
@@ -23,39 +28,106 @@ def _is_succ(e: ast.AST, var: str) -> bool:
         (isinstance(e.right, ast.Name) and e.right.id == var and isinstance(e.left, ast.Constant) and e.left.value == 1)))
 
 
-def cycle_loops(fi: FunctionInfo) -> List[Dict]:
+def _is_last(t: ast.AST, i: str) -> Optional[str]:
+    """`i == N - 1`  ->  text of N"""
+    if isinstance(t, ast.Compare) and len(t.ops) == 1 and isinstance(t.ops[0], ast.Eq):
+        l, r = t.left, t.comparators[0]
+        if isinstance(r, ast.Name) and r.id == i:
+            l, r = r, l
+        if isinstance(l, ast.Name) and l.id == i and isinstance(r, ast.BinOp) and isinstance(r.op, ast.Sub) \
+                and isinstance(r.right, ast.Constant) and r.right.value == 1:
+            return txt(r.left)
+    return None
+
+
+def wrap_helper(fn: ast.FunctionDef) -> bool:
+    """f(i, N): returns 0 when i == N - 1 and i + 1 otherwise, or (i + 1) % N"""
+    args = [a.arg for a in fn.args.args]
+    if len(args) != 2 or fn.args.vararg or fn.args.kwarg:
+        return False
+    i, N = args
+    body = [s for s in fn.body if not (isinstance(s, ast.Expr) and isinstance(s.value, ast.Constant))]
+
+    def is_mod(e):
+        return isinstance(e, ast.BinOp) and isinstance(e.op, ast.Mod) and _is_succ(e.left, i) and txt(e.right) == N
+
+    def is_zero(e):
+        return isinstance(e, ast.Constant) and e.value == 0 and not isinstance(e.value, bool)
+
+    if len(body) == 1 and isinstance(body[0], ast.Return) and body[0].value is not None:
+        v = body[0].value
+        if is_mod(v):
+            return True
+        if isinstance(v, ast.IfExp) and _is_last(v.test, i) == N and is_zero(v.body) and _is_succ(v.orelse, i):
+            return True
+        return False
+    if len(body) in (1, 2) and isinstance(body[0], ast.If) and _is_last(body[0].test, i) == N \
+            and len(body[0].body) == 1 and isinstance(body[0].body[0], ast.Return) and is_zero(body[0].body[0].value):
+        rest = body[0].orelse if len(body) == 1 else body[1:]
+        return len(rest) == 1 and isinstance(rest[0], ast.Return) and rest[0].value is not None and _is_succ(rest[0].value, i)
+    return False
+
+
+def _loops(fi: FunctionInfo):
+    """(node, var, iter call, body nodes) for statement loops and comprehension generators over range(...)"""
+    for n in walk_local(fi.node):
+        if isinstance(n, ast.For) and isinstance(n.target, ast.Name):
+            yield n, n.target.id, n.iter, list(n.body)
+        elif isinstance(n, (ast.ListComp, ast.SetComp, ast.GeneratorExp)):
+            for g in n.generators:
+                if isinstance(g.target, ast.Name):
+                    yield n, g.target.id, g.iter, [n.elt] + list(g.ifs)
+
+
+def cycle_loops(fi: FunctionInfo, ctx=None) -> List[Dict]:
     """-> one record per loop that walks a cycle, with its verdict"""
     out = []
     par = parents(fi.node)
-    for loop in walk_local(fi.node):
-        if not (isinstance(loop, ast.For) and isinstance(loop.target, ast.Name) and isinstance(loop.iter, ast.Call)
-                and isinstance(loop.iter.func, ast.Name) and loop.iter.func.id == "range"):
+    sdefs = single_defs(fi.node, fi.params)
+
+    def norm(e) -> str:
+        return txt(expand_locals(fi.node, e, fi.params, defs=sdefs))
+
+    def norm_text(s: Optional[str]) -> Optional[str]:
+        if s is None:
+            return None
+        try:
+            return norm(ast.parse(s, mode="eval").body)
+        except SyntaxError:
+            return s
+
+    def helper_call(n: ast.AST, i: str) -> bool:
+        if not (isinstance(n, ast.Call) and isinstance(n.func, ast.Name) and len(n.args) == 2 and not n.keywords
+                and isinstance(n.args[0], ast.Name) and n.args[0].id == i):
+            return False
+        b = fi.resolve(n.func.id)
+        return b is not None and b.kind == "func" and wrap_helper(b.target.node)
+
+    for loop, i, it, body in _loops(fi):
+        if not (isinstance(it, ast.Call) and isinstance(it.func, ast.Name) and it.func.id == "range"):
             continue
-        i = loop.target.id
-        succs = [n for st in loop.body for n in ast.walk(st) if _is_succ(n, i)]
+        succs = [n for st in body for n in ast.walk(st) if _is_succ(n, i) or helper_call(n, i)]
         if not succs:
             continue
         # names that are used inside subscript indices within the loop
         idx_names = set()
-        direct = False
-        for st in loop.body:
+        for st in body:
             for n in ast.walk(st):
                 if isinstance(n, ast.Subscript):
                     for m in ast.walk(n.slice):
                         if isinstance(m, ast.Name):
                             idx_names.add(m.id)
-                        if any(m is s for s in succs):
-                            direct = True
-        flows = []  # (succ node, how it is wrapped / not)
+        flows = []  # (succ node, N of the modulo / helper wrap, N of the if-idiom)
         for s in succs:
-            # climb: is s inside `(...) % N` ?
-            p = par.get(id(s))
             wrapped_mod = None
-            if isinstance(p, ast.BinOp) and isinstance(p.op, ast.Mod) and p.left is s:
-                wrapped_mod = txt(p.right)
-                top = p
+            top = s
+            if isinstance(s, ast.Call):
+                wrapped_mod = txt(s.args[1])
             else:
-                top = s
+                p = par.get(id(s))
+                if isinstance(p, ast.BinOp) and isinstance(p.op, ast.Mod) and p.left is s:
+                    wrapped_mod = txt(p.right)
+                    top = p
             # where does the value go?
             stmt = top
             while id(stmt) in par and not isinstance(stmt, ast.stmt):
@@ -70,8 +142,7 @@ def cycle_loops(fi: FunctionInfo) -> List[Dict]:
                 q = top
                 while id(q) in par and not isinstance(q, ast.stmt):
                     pq = par[id(q)]
-                    if isinstance(pq, ast.Subscript) and pq.slice is q or (isinstance(pq, ast.Subscript) and any(
-                            x is top for x in ast.walk(pq.slice))):
+                    if isinstance(pq, ast.Subscript) and (pq.slice is q or any(x is top for x in ast.walk(pq.slice))):
                         to_index = True
                     q = pq
             if not to_index:
@@ -81,41 +152,35 @@ def cycle_loops(fi: FunctionInfo) -> List[Dict]:
                 # if-idiom: the assignment is the else arm of `if i == N - 1: local = 0`
                 pif = par.get(id(stmt))
                 if isinstance(pif, ast.If) and any(x is stmt for x in pif.orelse):
-                    t = pif.test
                     then_zero = any(isinstance(b, ast.Assign) and len(b.targets) == 1 and txt(b.targets[0]) == local
                                     and isinstance(b.value, ast.Constant) and b.value.value == 0 for b in pif.body)
-                    if isinstance(t, ast.Compare) and len(t.ops) == 1 and isinstance(t.ops[0], ast.Eq) and then_zero:
-                        l, r = t.left, t.comparators[0]
-                        if isinstance(r, ast.Name) and r.id == i:
-                            l, r = r, l
-                        if isinstance(l, ast.Name) and l.id == i and isinstance(r, ast.BinOp) and isinstance(r.op, ast.Sub) \
-                                and isinstance(r.right, ast.Constant) and r.right.value == 1:
-                            wrap_if = txt(r.left)
+                    if then_zero:
+                        wrap_if = _is_last(pif.test, i)
             flows.append((s, wrapped_mod, wrap_if))
         if not flows:
             continue
-        args = loop.iter.args
+        args = it.args
         full = None
         if len(args) == 1:
-            full = txt(args[0])
+            full = norm(args[0])
         elif len(args) == 2 and isinstance(args[0], ast.Constant) and args[0].value == 0:
-            full = txt(args[1])
+            full = norm(args[1])
         problems = []
         for s, wm, wi in flows:
-            N = wm or wi
+            N = norm_text(wm or wi)
             if N is None:
                 problems.append("successor `%s` (line %d) is used as an index without wrap-around" % (txt(s), s.lineno))
             elif full is None:
-                problems.append("loop does not start at 0: `%s`" % txt(loop.iter))
+                problems.append("loop does not start at 0: `%s`" % txt(it))
             elif full != N:
-                problems.append("loop ranges over `%s` but the successor wraps at `%s`: not every element is visited" % (txt(loop.iter), N))
-        out.append({"loop": loop, "var": i, "range": txt(loop.iter), "flows": len(flows), "problems": problems,
-                    "idiom": "modulo" if any(f[1] for f in flows) else "if-idiom"})
+                problems.append("loop ranges over `%s` but the successor wraps at `%s`: not every element is visited" % (txt(it), N))
+        idiom = "wrap helper" if any(isinstance(f[0], ast.Call) for f in flows) else ("modulo" if any(f[1] for f in flows) else "if-idiom")
+        out.append({"loop": loop, "var": i, "range": txt(it), "flows": len(flows), "problems": problems, "idiom": idiom})
     return out
 
 
 def check_cycles(ctx, res, fi: FunctionInfo, rule: str) -> int:
-    recs = cycle_loops(fi)
+    recs = cycle_loops(fi, ctx)
     for r in recs:
         ok = not r["problems"]
         res.ob(rule, fi.where(r["loop"]), "%s: for %s in %s" % (fi.short, r["var"], r["range"]), ok,
